@@ -24,6 +24,7 @@ GEN = [(r'assert_eq!\(a\.len\(\), count\);', 'assert!(a.len() == count);', 1), (
 
 def unit():
     u = VUnit('field_vec', 'merge_vector / add_assign_vector / sub_assign_vector for any length (abstract field)')
+    u.oracle = {'inject': 'src/vdaf/prio3.rs', 'file': 'agg_oracle.rs', 'test': 'verif_oracle_agg::oracle_aggregate'}
     u.paired_kani = {'merge_vector': ['merge_vector_contract64']}
     u.raw('global size_of usize == 8;\n' + FE_PRELUDE, 'abstract-field')
     u.raw(PRELUDE, 'prelude')
